@@ -124,7 +124,9 @@ def random_call(rng, op, nmax=10):
               for i in range(rng.choice([1, 1, 2]))]
     # column names that only differ by case / punctuation (as after a join): a column given BY NAME is the column
     # with exactly that name, not an earlier one whose accessor looks the same
-    names = rng.choice([NAMES, NAMES, NAMES, ["A", "a", "B", "b", "c"], ["a b", "a_b", "X", "x", "y"]])[:ncols]
+    names = rng.choice([NAMES, NAMES, NAMES, ["A", "a", "B", "b", "c"], ["a b", "a_b", "X", "x", "y"],
+                        # one name on several columns (as after a join on equally named keys, or t >> {...} with a name in use)
+                        ["a", "b", "a", "c", "b"], ["k", "k", "v", "v", "k"]])[:ncols]
     c = {"op": op, "names": names, "cols": cols, "over": over,
          "over_bare": nk == 1 and rng.random() < 0.5, "args": args, "apply": ap}
     if ap is None and rng.random() < 0.3:
@@ -375,7 +377,7 @@ def _run(case, method):
         # discarded); then every cell is written IN PLACE through the live column objects until the table
         # holds case["cols"]; only then the observed call is made.  aggregate/window are functions of the
         # table's CURRENT contents: anything remembered from the earlier call must not show.
-        t = Table({nm: [V.dec(col[p]) for p in perm] for nm, col in zip(names, case["cols"])})
+        t = _tab(names, [[V.dec(col[p]) for p in perm] for col in case["cols"]])
         pre = _enc_cols(t)
         try:
             _call_on(t, names, pre, case, method, [])
@@ -387,11 +389,11 @@ def _run(case, method):
                     if perm[i] != i:
                         t._underlying[j][i] = V.dec(tag)
         except Exception:                                    # noqa: BLE001 - fall back to a fresh table
-            t = Table({nm: [V.dec(x) for x in col] for nm, col in zip(names, case["cols"])})
+            t = _tab(names, [[V.dec(x) for x in col] for col in case["cols"]])
         if _enc_cols(t) != [list(c) for c in case["cols"]]:
-            t = Table({nm: [V.dec(x) for x in col] for nm, col in zip(names, case["cols"])})
+            t = _tab(names, [[V.dec(x) for x in col] for col in case["cols"]])
     else:
-        t = Table({nm: [V.dec(x) for x in col] for nm, col in zip(names, case["cols"])})
+        t = _tab(names, [[V.dec(x) for x in col] for col in case["cols"]])
     pre = _enc_cols(t)
     log = []
     obs = {"pre": pre}
@@ -404,6 +406,14 @@ def _run(case, method):
     return obs
 
 
+def _tab(names, cols):
+    """a table with these column names - repeated names included (a dict would merge them)"""
+    from serif import Table, Vector
+    if len(set(names)) == len(names):
+        return Table({nm: col for nm, col in zip(names, cols)})
+    return Table([Vector(col, name=nm) for nm, col in zip(names, cols)])
+
+
 def _call_on(t, names, pre, case, method, log, obs=None):
     """build the arguments against table t (its present contents are `pre`) and call t.<method>"""
     from serif import Vector
@@ -413,9 +423,9 @@ def _call_on(t, names, pre, case, method, log, obs=None):
         if spec[0] == "n":
             if spec[1] >= len(names):
                 return "nosuch", None
-            return names[spec[1]], pre[spec[1]]
+            return names[spec[1]], pre[names.index(names[spec[1]])]      # a repeated name denotes its FIRST column
         if spec[0] == "c":
-            return t[names[spec[1]]], pre[spec[1]]
+            return t[names[spec[1]]], pre[names.index(names[spec[1]])]
         vec = Vector([V.dec(x) for x in spec[1]], name=(spec[2] if len(spec) > 2 else None))
         return vec, [V.enc(x) for x in vec._underlying]
 
@@ -454,7 +464,7 @@ def _call_on(t, names, pre, case, method, log, obs=None):
             # same column names (the rows in reverse order): a call reads its arguments, it does not rewrite them
             try:
                 from serif import Table
-                t2 = Table({nm: [V.dec(x) for x in reversed(col)] for nm, col in zip(names, pre)})
+                t2 = _tab(names, [[V.dec(x) for x in reversed(col)] for col in pre])
                 getattr(t2, method)(over=ov, **kwargs)
             except Exception:                                # noqa: BLE001
                 pass
@@ -743,9 +753,12 @@ class FloatTable:
         return clist(f"({clist(cnat(i) for i in ids)}, {cnat(tok)})" for ids, tok in self.entries.items())
 
 
-def _spec_term(u, spec, snap):
+def _spec_term(u, spec, snap, names=None):
     if spec[0] in ("n", "c"):
-        return f"KCol {cnat(spec[1])}"
+        j = spec[1]
+        if names is not None and j < len(names):
+            j = names.index(names[j])          # a column given by name (or as t[name]): a repeated name denotes its FIRST column
+        return f"KCol {cnat(j)}"
     return f"KVec {u.cells(snap)}"
 
 
@@ -780,7 +793,7 @@ def emit_call(case, run, window):
     t_term = clist(u.cells(c) for c in pre)
 
     # resolved snapshots travel in res (same order as the specs)
-    over_terms = [_spec_term(u, s, snap) for s, snap in zip(case["over"], res["over"])]
+    over_terms = [_spec_term(u, s, snap, case["names"]) for s, snap in zip(case["over"], res["over"])]
     arg_terms = {}
     roles = []           # (role, data tags) per expected result column after the keys
     for kind in KINDS:
@@ -789,14 +802,14 @@ def emit_call(case, run, window):
             arg_terms[kind] = "None"
             continue
         specs = [a["bare"]] if "bare" in a else a["list"]
-        arg_terms[kind] = "(Some " + clist(_spec_term(u, s, snap) for s, snap in zip(specs, res["args"][kind])) + ")"
+        arg_terms[kind] = "(Some " + clist(_spec_term(u, s, snap, case["names"]) for s, snap in zip(specs, res["args"][kind])) + ")"
     for kind in ORDER:
         for snap in res["args"][kind] or []:
             roles.append((kind, snap))
     if case["apply"] is None:
         ap_term = "None"
     else:
-        ap_term = "(Some " + clist(f"({_spec_term(u, spec, snap[1])}, {cnat(3 * idx + fid)})"
+        ap_term = "(Some " + clist(f"({_spec_term(u, spec, snap[1], case['names'])}, {cnat(3 * idx + fid)})"
                                    for idx, ((name, spec, fid), snap)
                                    in enumerate(zip(case["apply"], res["apply"]))) + ")"
         for name, snap, fid in res["apply"]:
